@@ -243,7 +243,9 @@ class BaseTemplate:
             )
         except RecursionError:
             raise
-        except BaseException:
+        except Exception:
+            # Exceptions outside the ``Exception`` hierarchy (for example
+            # ``KeyboardInterrupt`` or ``SystemExit``) propagate unchanged.
             cls, exc, tb = sys.exc_info()
             try:
                 errors = rcontext.get('__error__')
